@@ -181,12 +181,13 @@ class KsWorld(object):
         # USEs sent by a task are the blocking ones on a replacement connection / a new pool: answered at once,
         # unless tasks are coroutines (then the task is suspended in its wait and the explorer answers)
         if self.in_task and self.suspend:
-            self.task_uses.append((conn.vid, q))
+            req['from_task'] = True         # (the server passes the request record it keeps)
+            self.task_uses.append((conn.vid, use_target(q)))
             return True
         return not self.in_task
 
     def from_task(self, q):
-        return (q.conn.vid, q.req.get('query', '')) in self.task_uses and not self.is_initial(q)
+        return bool(q.req.get('from_task'))
 
     # ------------------------------------------------------------------ executor tasks as coroutines
     def _pump(self, pred=None):
@@ -210,11 +211,9 @@ class KsWorld(object):
     def _enter_task(self, g):
         self.in_task = True
         try:
-            g.switch()
+            g.switch()          # returns when the task has ended or is suspended; its exceptions surface here
         finally:
             self.in_task = False
-        if g.dead and getattr(g, 'failure', None) is not None:
-            raise g.failure
 
     def can_resume(self):
         return self.suspended is not None and bool(self.suspended[1]())
@@ -228,10 +227,13 @@ class KsWorld(object):
         if self.suspended is not None:
             g = self.suspended[0]
             self._aborting = True
-            try:
-                g.switch()
-            except BaseException:
-                pass
+            for _ in range(20):
+                if g.dead:
+                    break
+                try:
+                    g.switch()
+                except BaseException:
+                    pass
             self.suspended = None
 
     def begin_renew(self):
@@ -244,8 +246,8 @@ class KsWorld(object):
             self.w.pump()
         finally:
             self.w.manual = prev
-        self.session.add_or_renew_pool(victim, False)
-        if victim in self.session._pools or len(self.w.tasks) != 1:
+        self.creation_future = self.session.add_or_renew_pool(victim, False)
+        if victim in self.session._pools or len(self.w.tasks) != 1 or self.creation_future.done():
             raise HarnessError('setup: expected exactly the pool-creation task')
         self.creating = addr(victim)
         self.base_vid = len(self.w.conns)
@@ -261,7 +263,7 @@ class KsWorld(object):
         a switch depends on what happened to the USEs of *that* switch."""
         if self.future is not None:
             out = self.outcome()
-            if out is None or self.pending():
+            if out is None or [q for q in self.pending() if not self.from_task(q)]:
                 raise HarnessError('next switch issued while the previous one is under way')
             self.earlier.append((self.target, out[0] if out[0] == 'ok' else type(out[1]).__name__))
         self.cur += 1
@@ -310,7 +312,10 @@ class KsWorld(object):
         return ('ok', None)
 
     def can_switch(self):
-        return self.cur + 1 < len(self.targets) and self.future is not None and self.done() and not self.pending()
+        # (a held USE of a suspended task - a pool that is not the session's yet - does not keep the application
+        # from its next switch: no switch is under way)
+        return self.cur + 1 < len(self.targets) and self.future is not None and self.done() and \
+            not [q for q in self.pending() if not self.from_task(q)]
 
     def orphan(self, hi):
         """A request of the application to host hi is not answered within its timeout (the server never answers
@@ -373,7 +378,12 @@ class KsWorld(object):
             else:
                 s = 'open'
             out[addr(h)] = s
+        if self.creating is not None and self.creating not in out and self.creation_under_way():
+            out[self.creating] = 'pool-being-created'
         return out
+
+    def creation_under_way(self):
+        return not self.creation_future.done()
 
     def respond(self, q, kind):
         a = addr(q.conn)
@@ -385,7 +395,8 @@ class KsWorld(object):
             self.server.respond(q, wire.OP_RESULT, wire.result_set_keyspace(ks), deliver=True)
         elif kind == 'ok':
             q.conn.server_state['keyspace'] = ks
-            self.answered.append((a, 'ok'))
+            if not self.from_task(q):
+                self.answered.append((a, 'ok'))
             self.server.respond(q, wire.OP_RESULT, wire.result_set_keyspace(ks), deliver=True)
         elif kind == 'invalid':
             self.failed.setdefault(a, set()).add('invalid')
@@ -411,6 +422,11 @@ class KsWorld(object):
         c.defunct(OSError(104, 'Connection reset by peer'))
 
     def run_task(self):
+        if self.suspend:
+            if self.suspended is not None:
+                raise HarnessError('a task is started while another one is suspended')
+            self._enter_task(greenlet.greenlet(lambda: self.w.run_task(0), parent=self._main))
+            return
         self.in_task = True
         try:
             self.w.run_task(0)
@@ -446,8 +462,12 @@ class KsWorld(object):
         for _ in range(limit):
             self.w.deliver_outbox()
             pend = self.pending()
-            if pend:
+            if self.can_resume():
+                self.resume()
+            elif pend:
                 self.respond(pend[0], 'set_ks' if self.is_initial(pend[0]) else 'ok')
+            elif self.suspended is not None:
+                raise HarnessError('a suspended task waits for something that nothing pending can bring about')
             elif self.w.tasks:
                 self.run_task()
             elif self.w.sched_tasks:
@@ -482,6 +502,8 @@ class KsWorld(object):
         memory = (tuple(sorted((a, tuple(sorted(k))) for a, k in self.failed.items())), tuple(sorted(self.answered)),
                   self.n_defunct, tuple(sorted(self.situation.items())) if self.situation else None,
                   self.cur, self.n_orphan, tuple(o for _, o in self.earlier))
+        if self.suspend:
+            memory += (tuple(self.task_uses), self.suspended is not None, self.can_resume())
         return (fut, self.session.keyspace, tuple(pools), hosts, conns, pend, sched, timers, tasks, memory)
 
 
@@ -523,6 +545,8 @@ class H(explore.Harness):
         for i, q in enumerate(st.pending()):
             if st.is_initial(q):
                 evs.append((('respond', i, 'set_ks'), 0))
+            elif st.from_task(q):
+                evs.append((('respond', i, 'ok'), 0))       # (assumption: these are answered successfully)
             else:
                 for kind in p['kinds']:
                     if kind == 'invalid' and len(st.targets) > 1 and \
@@ -545,7 +569,10 @@ class H(explore.Harness):
             evs.append((('touch', hi), 0))
         if st.can_switch():
             evs.append((('switch', st.cur + 1), 0))
-        if st.w.tasks:
+        if st.can_resume():
+            evs.append((('resume',), 0))
+        if st.w.tasks and st.suspended is None:
+            # (one executor worker: the next task starts when the one that is under way has ended)
             evs.append((('task', 0), 0))
         if st.w.sched_tasks:
             evs.append((('sched',), 0))
@@ -585,6 +612,8 @@ class H(explore.Harness):
             st.issue()
         elif k == 'task':
             st.run_task()
+        elif k == 'resume':
+            st.resume()
         elif k == 'sched':
             st.fire_sched()
         elif k == 'timer':
@@ -695,7 +724,11 @@ def focus_codes():
 def sched_harness(params, prefix, part):
     """One execution: the reactor thread (delivers the USE result to the session, then every answer of the
     auto server) against the executor thread (runs the queued replacement / pool-renewal task, and whatever
-    is submitted later).  params: KsWorld params + scenario ('replace' | 'renew')."""
+    is submitted later) and, when params 'switches' names several targets, the application thread that issues
+    the next switch as soon as the previous one has reported its outcome (the result of each of its USE statements
+    reaches the client at a moment the scheduler chooses, so a later switch may complete while the executor thread
+    is anywhere in the task, e.g. waiting for the answer to the catch-up USE of the pool it is creating).
+    params: KsWorld params + scenario ('replace' | 'replace-orphaned' | 'renew')."""
     from vt.connlib import quiet_driver_logs
     quiet_driver_logs()
     st = KsWorld(params, issue=False)
@@ -721,12 +754,7 @@ def sched_harness(params, prefix, part):
                 raise HarnessError('setup: expected the open, marked connection and exactly the replacement task')
         elif scenario == 'renew':
             # the pool of the victim host is being (re)created, as after the host came back up
-            st.session.remove_pool(victim)
-            while st.w.tasks:
-                st.run_task()
-            st.session.add_or_renew_pool(victim, False)
-            if victim in st.session._pools or len(st.w.tasks) != 1:
-                raise HarnessError('setup: expected exactly the pool-creation task')
+            st.begin_renew()
         else:
             raise HarnessError('unknown scenario %r' % (scenario,))
         st.n_defunct = st.n_orphan = 0
@@ -734,14 +762,22 @@ def sched_harness(params, prefix, part):
         pend = st.pending()
         if len(pend) != 1 or not st.is_initial(pend[0]):
             raise HarnessError('setup: expected exactly the held USE statement, got %r' % (pend,))
-        st.server.hold = lambda conn, req: False      # every later answer is a success: the schedule is the nondeterminism
+        # every answer but the result of the application's USE is a success that the reactor delivers in the order
+        # of the requests; the moment the USE result reaches the client is a choice: the schedule is the nondeterminism
+        st.server.hold = lambda conn, req: req['op'] == 'QUERY' and req.get('query') == user_use(st.target)
         s = sched.Scheduler(prefix, focus=focus_codes(), horizon=params.get('horizon', 30000), clock=st.w.clock)
         busy = {'reactor': True, 'executor': True}
-        net = {'arrived': False, 'delivered': False}
+        net = {'arrived': False, 'delivered': 0, 'to_issue': len(st.targets) - 1}
+
+        def held():
+            return [q for q in st.pending() if st.is_initial(q)]
+
+        def all_delivered():
+            return net['delivered'] == len(st.targets) and not net['to_issue']
 
         def quiet(me):
             other = 'executor' if me == 'reactor' else 'reactor'
-            return net['delivered'] and not busy[other] and not st.server.outbox and not st.w.tasks
+            return all_delivered() and not busy[other] and not st.server.outbox and not st.w.tasks
 
         def arrival():
             # the moment the USE result reaches the client is the scheduler's choice
@@ -750,13 +786,13 @@ def sched_harness(params, prefix, part):
         def reactor():
             while True:
                 busy['reactor'] = False
-                s.block(lambda: bool(st.server.outbox) or (net['arrived'] and not net['delivered']) or quiet('reactor'),
+                s.block(lambda: bool(st.server.outbox) or (net['arrived'] and bool(held())) or quiet('reactor'),
                         None, 'reactor idle')
                 busy['reactor'] = True
-                can_switch = net['arrived'] and not net['delivered']
-                if can_switch and (not st.server.outbox or s.choose(2, 'use-result-first') == 1):
-                    net['delivered'] = True
-                    st.respond(pend[0], 'set_ks')
+                h = held() if net['arrived'] else []
+                if h and (not st.server.outbox or s.choose(2, 'use-result-first') == 1):
+                    net['delivered'] += 1
+                    st.respond(h[0], 'set_ks')
                 elif st.server.outbox:
                     st.w.deliver_outbox(1)
                 else:
@@ -772,9 +808,18 @@ def sched_harness(params, prefix, part):
                 busy['executor'] = True
                 st.w.run_task(0)
 
+        def application():
+            # the next switch is issued once the previous one has reported its outcome
+            while net['to_issue']:
+                s.block(lambda: st.done() and not held(), None, 'application waits for the outcome of its switch')
+                st.issue()
+                net['to_issue'] -= 1
+
         s.spawn(arrival, 'use-result-arrives')
         s.spawn(reactor, 'reactor')
         s.spawn(executor, 'executor')
+        if net['to_issue']:
+            s.spawn(application, 'application')
         s.run()
         data = {'params': params, 'prefix': s.choices()}
         if s.failure:
@@ -789,10 +834,11 @@ def sched_harness(params, prefix, part):
             raise HarnessError('default continuation does not quiesce after schedule %r' % (s.choices(),))
         judge(st, part, data, 'settled')
         out = st.outcome()
-        part.outcome((scenario, 'pending' if out is None else out[0] if out[0] == 'ok' else type(out[1]).__name__,
+        part.outcome((scenario if len(st.targets) == 1 else '%s, %d switches' % (scenario, len(st.targets)),
+                      'pending' if out is None else out[0] if out[0] == 'ok' else type(out[1]).__name__,
                       tuple(sorted((a, p._keyspace) for a, p in ((addr(h), p) for h, p in st.session._pools.items())))))
         if any(p.chosen for p in s.trace if not p.kind.startswith('data')):
-            part.mark_nontrivial(repr((scenario, params.get('ks0'), params.get('proto'), s.choices())))
+            part.mark_nontrivial(repr((scenario, params.get('ks0'), params.get('proto'), st.targets, s.choices())))
         part.sample({'scenario': scenario, 'choices': s.choices(), 'outcome': None if out is None else out[0]}, limit=1)
         return s
     finally:
